@@ -160,6 +160,13 @@ def oracle_failures(case, obs):
     for l in base["lines"]:
         if l in o["must"] and l not in real["lines"]:
             out.append(("executable-line-missing", f"executable line {l} outside excluded code is not a line goal"))
+    # a definition / lambda / comprehension that has to be covered must be instrumented
+    for k, c in base["cos"].items():
+        if c["parent"] is not None and c["first"] in o["must_scopes"] and not (k in real["cos"] and real["cos"][k]["registered"]):
+            out.append(("codeobject-goal-missing", f"code object {k} outside excluded code is not instrumented"))
+    if not real["cos"] or not next(iter(real["cos"].values()))["registered"]:
+        if 0 not in o["exc"] and not (o["marked"] & {0}):
+            out.append(("codeobject-goal-missing", "the module's code object is not instrumented"))
     return out
 
 
